@@ -6,6 +6,13 @@ PROP = 'C14'
 IMPORTS = 'Model.Diff Corr.C14'
 KINDS = ('LABELS', 'PARSE', 'ELAB')
 
+def eval_robust(tag, imports, ty, cases, shard):
+    """coq_eval_cases; shards that die (per-shard timeout on a loaded machine) are re-run once in smaller shards"""
+    mism, errs = coq_eval_cases(tag, imports, ty, cases, shard=shard)
+    if errs and not mism:
+        mism, errs = coq_eval_cases(tag + 'r', imports, ty, cases, shard=max(5, shard // 6))
+    return mism, errs
+
 def run_harness(v, args, seed):
     rc, out = sh([harness_bin('c14')] + [str(a) for a in args], timeout=1500, env={'VERIF_SEED': str(seed)})
     lines = [l for l in out.splitlines() if '\t' in l]
@@ -51,7 +58,7 @@ def main(argv):
         for f in corpus_flags: lines += run_harness(v, ['flags', f], seed)
         for f in corpus_text: lines += run_harness(v, ['text', f], seed)
         if not replay:
-            n = {'quick': (64, 1500, 2000), 'thorough': (1500, 30000, 40000)}[tier if tier in ('quick', 'thorough') else 'quick']
+            n = {'quick': (64, 1500, 2000), 'thorough': (600, 15000, 20000)}[tier if tier in ('quick', 'thorough') else 'quick']
             lines += run_harness(v, ['labels', n[0]], seed) + run_harness(v, ['parse', n[1]], seed) + run_harness(v, ['elab', n[2]], seed)
         for l in lines:
             parts = l.split('\t')
@@ -83,9 +90,9 @@ def main(argv):
         order = sorted(range(len(cases)), key=lambda i: kinds[i] != 'LABELS')
         big = [i for i in order if kinds[i] == 'LABELS']; small = [i for i in order if kinds[i] != 'LABELS']
         mism_all, errs_all = [], []
-        for name, idxs, sh_ in (('labels', big, 6 if tier == 'quick' else 100), ('small', small, 300 if tier == 'quick' else 4000)):
+        for name, idxs, sh_ in (('labels', big, 6 if tier == 'quick' else 12), ('small', small, 300 if tier == 'quick' else 600)):
             if not idxs: continue
-            mism, errs = coq_eval_cases(PROP + name, IMPORTS, 'c14case', [cases[i] for i in idxs], shard=sh_)
+            mism, errs = eval_robust(PROP + name, IMPORTS, 'c14case', [cases[i] for i in idxs], sh_)
             mism_all += [idxs[i] for i in mism]; errs_all += errs
         v.obligation('correspondence: model = implementation on %d cases (vm_compute inside Coq)' % len(cases), not mism_all and not errs_all,
                      ('%d mismatches; ' % len(mism_all)) + '; '.join(errs_all)[:600] if (mism_all or errs_all) else '')
